@@ -255,12 +255,17 @@ class QuicSession:
         return None
 
     def packet_isserver(self, packet, dcid):
-        if len(dcid) > 0 and dcid in self.server_cids:
+        # The addresses of the session tell who sent the packet. Connection ids only decide for packets from other
+        # addresses (migration): both endpoints choose their ids independently, so an id issued by the server may
+        # equal one of the client's ids (likely with one byte ids).
+        if packet.ip_src == self.client_ip and packet.sport == self.client_port:
+            return False
+        elif packet.ip_src == self.server_ip and packet.sport == self.server_port:
+            return True
+        elif len(dcid) > 0 and dcid in self.server_cids:
             return False
         elif len(dcid) > 0 and dcid in self.client_cids:
             return True
-        elif packet.ip_src == self.client_ip and packet.sport == self.client_port:
-            return False
         else:
             return True
 
